@@ -836,6 +836,7 @@ func TestProp(t *testing.T) {
 		Rule:         "rapid-generated cases in five modes: (roundtrip) for every method registered in the test binary (puppet service with a message of every scalar kind, nested/repeated/map/oneof/enum/unknown fields, plus the repository's own test services) and both directions a reflectively generated payload and metadata (any message id, status with any code/text/Any details) must survive Marshal+Unmarshal with equal content and the right type; (decode) frames derived from valid ones by structure-aware mutation (truncation at boundaries, hostile/short/long length prefixes, swapped or spliced sections, method replaced by the name of every non-method registry entity / unknown / empty / long / non-UTF-8 names, byte flips) and plain noise must never panic; (e2e-frame) the same frames written raw to a live server's NodeStream must not panic its stream goroutine and a following probe must be answered; (e2e-client) a raw grpc server without gorums code answers the first request of a fresh manager (RPC, quorum, per-node, custom-type, async, correctable, stream, unicast or multicast call) with a generated response-direction frame (every mutation of the decode mode; message id that of the call in 3 of 4 cases) and every later request with a well-formed reply: the call may fail or succeed but nothing may panic or crash the client process, and a later RPC to the node must be answered; (e2e-status) 1-6 consecutive RPCs to one node through one manager whose handlers fail with generated codes 1-16 and messages (empty, multi-line, non-ASCII, random) or succeed (after and between failures): every status code and message must reach its caller unchanged and without details, and a success must arrive as a success. Non-trivial = payload with a populated non-scalar field or status with details (roundtrip), a frame that differs from a valid one but is not noise (decode/e2e-frame), every e2e-status case",
 		Gen:          gen,
 		Run:          run,
-		TrackCurrent: false,
+		TrackCurrent: true,
+		TrackIf:      func(c Case) bool { return strings.HasPrefix(c.Mode, "e2e") },
 	})
 }
